@@ -299,16 +299,16 @@ pub fn run_foreign_instance(seed: u64) {
 
 /// The program replayed on a fresh thread (fresh thread-locals) in which a differently configured
 /// instance has been used first.
-pub fn chain_after_foreign(case: &ChainCase, seed: u64) -> Vec<String> {
+pub fn chain_after_foreign(case: &ChainCase, seed: u64) -> Result<Vec<String>, String> {
     let case = case.clone();
-    std::thread::Builder::new()
-        .stack_size(256 << 20)
-        .spawn(move || {
-            crate::core::install_quiet_panic_hook();
-            run_foreign_instance(seed);
-            chain_replay(&case)
-        })
-        .expect("spawn")
-        .join()
-        .unwrap_or_else(|_| vec!["<thread panicked>".to_string()])
+    on_fresh_thread(move || {
+        crate::core::install_quiet_panic_hook();
+        // a panic while the other instances are driven is theirs (or the harness's): it is reported apart from a
+        // panic of the replayed instance
+        if let Err(p) = catch(|| run_foreign_instance(seed)) {
+            return Err(format!("while driving the other instances: {}", p));
+        }
+        catch(|| chain_replay(&case)).map_err(|p| format!("while replaying the program after the other instances: {}", p))
+    })
+    .and_then(|r| r)
 }
